@@ -73,6 +73,12 @@ def cases(draw, tier):
         else:
             src = draw(st.sampled_from(pool))
             pool.append({"r": src["r"], "twin": twin})
+    if forms:
+        # integral metadata / subdomain ids as further data that equal forms must share
+        mds = [{}, {"quadrature_degree": 2}, {"quadrature_degree": 3}, {"quadrature_degree": 2, "rule": "default"}]
+        for m_ in pool:
+            m_["md"] = draw(st.sampled_from(mds[:2] if draw(st.booleans()) else mds))
+            m_["sid"] = draw(st.sampled_from([None, None, 1]))
     nops = draw(st.integers(5, 25))
     ops = [[draw(st.sampled_from(["eq", "ne", "set", "dict", "sorted", "hash", "str", "pickle", "evalrepr", "eq", "set"])),
             draw(st.integers(0, n - 1)), draw(st.integers(0, n - 1))] for _ in range(nops)]
@@ -169,7 +175,8 @@ def check_case(case):
             if case["forms"]:
                 if e.ufl_shape or e.ufl_free_indices:
                     continue
-                e = e * ufl.dx(base.mesh, metadata=case["md"] or None)
+                e = e * ufl.Measure("dx", domain=base.mesh, metadata=(m.get("md") or None),
+                                    subdomain_id=("everywhere" if m.get("sid") is None else m["sid"]))
                 if not e.integrals():
                     continue
         except RecursionError:
